@@ -26,3 +26,55 @@ Qed.
 
 Theorem graph_no_loops A n i : (i < n)%nat -> nth i (nth i (graph_of A n) []) 0%nat = 0%nat.
 Proof. intro Hi. rewrite graph_entry by assumption. rewrite Nat.eqb_refl. reflexivity. Qed.
+
+(* the judges of the ordering mean what they say: `is_perm n p` accepts exactly the rearrangements of 1..n, and
+   `inverse_ok p ip` says that ip undoes p position by position *)
+From Coq Require Import Permutation.
+
+Lemma existsb_eqb_In k p : existsb (Nat.eqb k) p = true <-> In k p.
+Proof.
+  rewrite existsb_exists. split.
+  - intros [x [Hx E]]. apply Nat.eqb_eq in E. subst. exact Hx.
+  - intro H. exists k. split; [exact H | apply Nat.eqb_refl].
+Qed.
+
+Theorem is_perm_sound n p : is_perm n p = true -> Permutation (seq 1 n) p.
+Proof.
+  unfold is_perm. intro H. apply andb_prop in H. destruct H as [Hl Hall].
+  apply Nat.eqb_eq in Hl. rewrite forallb_forall in Hall.
+  apply NoDup_Permutation_bis.
+  - apply seq_NoDup.
+  - rewrite seq_length. lia.
+  - intros k Hk. apply existsb_eqb_In. apply Hall. exact Hk.
+Qed.
+
+Theorem is_perm_complete n p : Permutation (seq 1 n) p -> is_perm n p = true.
+Proof.
+  intro H. unfold is_perm. apply andb_true_intro. split.
+  - apply Nat.eqb_eq. rewrite <- (Permutation_length H). apply seq_length.
+  - apply forallb_forall. intros k Hk. apply existsb_eqb_In. apply (Permutation_in _ H). exact Hk.
+Qed.
+
+Corollary is_perm_NoDup n p : is_perm n p = true -> NoDup p /\ (forall k, In k p <-> 1 <= k <= n)%nat.
+Proof.
+  intro H. apply is_perm_sound in H. split.
+  - apply (Permutation_NoDup H). apply seq_NoDup.
+  - intro k. split.
+    + intro Hk. apply Permutation_sym in H. apply (Permutation_in _ H) in Hk. apply in_seq in Hk. lia.
+    + intro Hk. apply (Permutation_in _ H). apply in_seq. lia.
+Qed.
+
+Theorem inverse_ok_spec p ip : inverse_ok p ip = true ->
+  forall i, (i < length p)%nat -> nth (nth i p 0%nat - 1) ip 0%nat = S i.
+Proof.
+  unfold inverse_ok. intros H i Hi. rewrite forallb_forall in H.
+  apply Nat.eqb_eq. apply H. apply in_seq. lia.
+Qed.
+
+(* hence an accepted pair (p, ip) is a bijection with its inverse: p is injective on positions *)
+Corollary inverse_ok_injective p ip i j : inverse_ok p ip = true -> (i < length p)%nat -> (j < length p)%nat ->
+  nth i p 0%nat = nth j p 0%nat -> i = j.
+Proof.
+  intros H Hi Hj E. pose proof (inverse_ok_spec p ip H i Hi) as A. pose proof (inverse_ok_spec p ip H j Hj) as B.
+  rewrite E in A. rewrite A in B. injection B. auto.
+Qed.
